@@ -28,6 +28,16 @@ def reencode(b):
     return Encoder().process(to_json_flat(m), wire_template_data=False).serialized_bytes
 
 
+def reencode_encoder_message(b):
+    """The rendering of a message that the ENCODER produced (its values are what the JSON text held: str for character
+    data, not the bytes a decode gives), re-encoded: must be the same bytes again."""
+    from pybufrkit.decoder import Decoder
+    from pybufrkit.encoder import Encoder
+    m = Decoder().process(b)
+    m2 = Encoder().process(to_json_flat(m), wire_template_data=False)        # an encoder-produced message object
+    return Encoder().process(to_json_flat(m2), wire_template_data=False).serialized_bytes
+
+
 def ghost_check(ctx, cases):
     """The conclusion of theorem decode_encode on the implementation: whenever the
     ghost encoder accepts (measured: non-vacuity), its bits are the implementation's
@@ -39,7 +49,8 @@ def ghost_check(ctx, cases):
     accepted = 0
     for c, o in zip(live, outs):
         case = {'ids': c['ids'], 'seed': c['seed'], 'forced': c['forced'], 'nsub': c['nsub'],
-                'version': c['version'], 'edition': c['edition']}
+                'version': c['version'], 'edition': c['edition'],
+                'varied': bool(c.get('features', {}).get('strings-short-or-with-leading-blanks'))}
         if not o.startswith('ok '):
             ctx.dist['ghost-encoder-refused ' + o] += 1
             continue
@@ -291,7 +302,8 @@ def fixpoint_checks(ctx, cases):
         if not e or e[0] != 'ok':
             continue
         case = {'ids': c['ids'], 'seed': c['seed'], 'forced': c['forced'], 'nsub': c['nsub'],
-                'version': c['version'], 'edition': c['edition']}
+                'version': c['version'], 'edition': c['edition'],
+                'varied': bool(c.get('features', {}).get('strings-short-or-with-leading-blanks'))}
         try:
             with lib.time_limit(60):
                 b1 = reencode(e[3])
@@ -305,6 +317,18 @@ def fixpoint_checks(ctx, cases):
             i = c.get('impl_dec')
             ctx.violation({'kind': 'C03-fixpoint', 'case': case, 'first': e[3].hex()[:200], 'second': b1.hex()[:200]},
                           'E(D(E(x))) != E(x) for ids=%s' % c['ids'])
+            continue
+        try:
+            with lib.time_limit(60):
+                b2 = reencode_encoder_message(e[3])
+        except Exception as ex:
+            ctx.violation({'kind': 'C03-fixpoint-encoder-message', 'case': case, 'error': lib.err_code(ex)},
+                          'the rendering of an encoder-produced message cannot be encoded again: ids=%s' % c['ids'])
+            continue
+        ctx.dist['fixpoint-encoder-message'] += 1
+        if b2 != e[3]:
+            ctx.violation({'kind': 'C03-fixpoint-encoder-message', 'case': case, 'first': e[3].hex()[:200], 'second': b2.hex()[:200]},
+                          'E(render(E(x))) != E(x) for the message object the encoder produced, ids=%s' % c['ids'])
     ctx.extra['fixpoint_cases'] = n
 
 
@@ -415,7 +439,10 @@ def replay(ctx, rec):
         return {'violations': len(ctx.violations)}
     cases = [{'ids': c['ids'], 'version': c.get('version', 33), 'edition': c.get('edition', 4), 'nsub': c['nsub'],
               'compressed': False, 'forced': c['forced'], 'seed': c['seed'], 'maxrep': 3, 'features': {}, 'shared': False}]
-    P.attach_templates(cases); P.run_gen(cases); P.run_encode(cases); P.run_decode(cases)
+    P.attach_templates(cases); P.run_gen(cases)
+    if c.get('varied'):
+        P.vary_string_lengths(cases[0], random.Random(c['seed'] ^ 0x5A5A5A), lead_blanks=True)
+    P.run_encode(cases); P.run_decode(cases)
     ghost_check(ctx, cases)
     fixpoint_checks(ctx, cases)
     return {'violations': len(ctx.violations)}
